@@ -540,7 +540,7 @@ def run_plan(plan: dict) -> RunResult:
 
         def compare(event):
             """Real object managers vs the model."""
-            world_lookup = session.objects._fullid_lookup
+            world_lookup = {o.FullID: o for o in session.objects.all_objects}    # public view of the full-ID index
             want_fulls = {O.full_id(f) for f in model.where}
             got_fulls = set(world_lookup.keys())
             if got_fulls != want_fulls:
@@ -700,8 +700,8 @@ def run_plan(plan: dict) -> RunResult:
                     violate("C14/futures/left-pending", why="end of run after teardown", region=f["r"],
                             local=f["local"], fkind=f["kind"])
                     break
-            if not stopped and len(session.objects._fullid_lookup):
-                violate("C14/index/objects-survive-teardown", n=len(session.objects._fullid_lookup))
+            if not stopped and len(session.objects):
+                violate("C14/index/objects-survive-teardown", n=len(session.objects))
         if not stopped and state["judging"]:
             for f in futures:
                 fu = f["fut"]
